@@ -1,38 +1,103 @@
 (* C12 - Refinement decisions are consistent, exact and terminate.
    Statements only; every proof is [exact <lemma>]. *)
 From FrameModel Require Import Num.QcTac Geometry.Rect Alloc.Alloc Alloc.GeomExtra Alloc.RefinesFacts
-  Alloc.AcceptFacts Alloc.OpsFacts Alloc.DecisionFacts Alloc.GriddifyFacts Alloc.Hist Alloc.HistFacts.
+  Alloc.AcceptFacts Alloc.OpsFacts Alloc.DecisionFacts Alloc.GriddifyFacts Alloc.Thr Alloc.ThrFacts Alloc.Hist Alloc.HistFacts.
 Open Scope list_scope.
 Open Scope Qc_scope.
 
-(* must_be_refined(t) holds exactly when refining at t changes the allocation ... *)
-Theorem C12_mbr_iff_changes : forall t levels cells new, Forall (fun c => wf (crect c)) cells -> (0 < levels)%nat ->
-  refine_cells t levels cells = Some new ->
-  (must_be_refined t cells = true <-> new <> cells).
-Proof. exact mbr_iff_changes. Qed.
+(* Thresholds are what the code receives: [t : thr] (Alloc/Thr.v) is a finite value, +inf, -inf or a NaN, and the only
+   thing the code does with it is  x <= t  on a ratio x ([le_thr]: always true for +inf, always false for -inf and
+   NaN).  A finite threshold [q : Qc] is read as [TFin q] (coercion).  On finite thresholds the functions below are,
+   by computation, the functions of Alloc.v that the models of the callers use (theorems C12_fin_splittable, C12_fin_must_be_refined, C12_fin_refine). *)
+
+(* must_be_refined(t) holds exactly when refining at t changes the allocation, for every threshold ... *)
+Theorem C12_mbr_iff_changes : forall (t : thr) levels cells new, Forall (fun c => wf (crect c)) cells -> (0 < levels)%nat ->
+  refine_cells_x t levels cells = Some new ->
+  (must_be_refined_x t cells = true <-> new <> cells).
+Proof. exact mbr_x_iff_changes. Qed.
 Print Assumptions C12_mbr_iff_changes.
 
+(* ... in terms of the public calls on an allocation the constructor accepts: refine(t, levels) returns, and returns
+   something else than the cells it was given exactly when must_be_refined(t) ... *)
+Theorem C12_refine_mbr_iff_changes : forall aeps (t : thr) levels cells, 0 <= aeps -> (0 < levels)%nat -> accepted aeps cells ->
+  exists new, refine_x aeps t levels cells = Some new /\ (must_be_refined_x t cells = true <-> new <> cells).
+Proof. exact refine_x_mbr_iff_changes. Qed.
+Print Assumptions C12_refine_mbr_iff_changes.
+
 (* ... when it holds the number of cells strictly grows (progress of the refine-while-needed loop) ... *)
-Theorem C12_mbr_true_progress : forall t levels cells new, Forall (fun c => wf (crect c)) cells -> (0 < levels)%nat ->
-  must_be_refined t cells = true -> refine_cells t levels cells = Some new ->
+Theorem C12_mbr_true_progress : forall (t : thr) levels cells new, Forall (fun c => wf (crect c)) cells -> (0 < levels)%nat ->
+  must_be_refined_x t cells = true -> refine_cells_x t levels cells = Some new ->
   (List.length cells < List.length new)%nat.
-Proof. exact mbr_true_progress. Qed.
+Proof. exact mbr_x_true_progress. Qed.
 Print Assumptions C12_mbr_true_progress.
 
 (* ... and when it does not, refining is the identity (the loop stops) *)
-Theorem C12_mbr_false_identity : forall t levels cells,
-  must_be_refined t cells = false -> refine_cells t levels cells = Some cells.
-Proof. exact mbr_false_identity. Qed.
+Theorem C12_mbr_false_identity : forall (t : thr) levels cells,
+  must_be_refined_x t cells = false -> refine_cells_x t levels cells = Some cells.
+Proof. exact mbr_x_false_identity. Qed.
 Print Assumptions C12_mbr_false_identity.
+
+(* the loop  while a.must_be_refined(t): a = a.refine(t, levels)  followed for [fuel] rounds from an accepted
+   allocation: it never raises; if it has stopped, nothing must be refined and refining is the identity; if it has
+   not, every one of the [fuel] rounds added at least one cell - it never stalls on an unchanged allocation.
+   (With refinement alone a selected cell stays selected - the pieces inherit its map - so the loop of a caller ends
+   because the caller recomputes the ratios between two rounds, tools/glbfloor; what C12 promises is progress.) *)
+Theorem C12_refine_loop_progress : forall aeps (t : thr) levels, 0 <= aeps -> (0 < levels)%nat ->
+  forall fuel cells, accepted aeps cells ->
+  match refine_loop fuel aeps t levels cells with
+  | LoopDone out => accepted aeps out /\ must_be_refined_x t out = false /\ refines cells out /\
+                    refine_x aeps t levels out = Some out
+  | LoopRaised => False
+  | LoopOutOfFuel out => accepted aeps out /\ refines cells out /\ (List.length cells + fuel <= List.length out)%nat
+  end.
+Proof. exact refine_loop_progress. Qed.
+Print Assumptions C12_refine_loop_progress.
 
 (* threshold refinement splits precisely the cells that are not fixed, non-empty and in which no
    module exceeds t: each into 2^levels cells of equal area obtained by the recursive halving of the
    longer side (split_alloc), depth raised by levels, same map; every other cell is left as it was *)
-Theorem C12_refine_exact : forall t levels cells new, Forall (fun c => wf (crect c)) cells ->
-  refine_cells t levels cells = Some new ->
-  exists parts, new = List.concat parts /\ Forall2 (refine_cell_spec t levels) cells parts.
-Proof. exact refine_exact. Qed.
+Theorem C12_refine_exact : forall (t : thr) levels cells new, Forall (fun c => wf (crect c)) cells ->
+  refine_cells_x t levels cells = Some new ->
+  exists parts, new = List.concat parts /\ Forall2 (refine_cell_spec_x t levels) cells parts.
+Proof. exact refine_x_exact. Qed.
 Print Assumptions C12_refine_exact.
+
+(* the extreme thresholds, on an accepted allocation (ratios in [0, 1]): at +inf and at every finite t >= 1 (1, 2,
+   1e308) exactly the refinable occupied cells are selected - an EMPTY cell is never selected and never makes
+   must_be_refined true -; at -inf, at a NaN and at every t < 0 nothing is selected, must_be_refined is False and
+   refine returns the cells it was given *)
+Theorem C12_splittable_top : forall aeps cells c (t : thr), accepted aeps cells -> In c cells ->
+  t = TPosInf \/ (exists q, t = TFin q /\ 1 <= q) -> splittable_x t c = occupied_refinable c.
+Proof. exact splittable_x_top. Qed.
+Print Assumptions C12_splittable_top.
+Theorem C12_mbr_top : forall aeps cells (t : thr), accepted aeps cells -> t = TPosInf \/ (exists q, t = TFin q /\ 1 <= q) ->
+  must_be_refined_x t cells = existsb occupied_refinable cells.
+Proof. exact mbr_x_top. Qed.
+Print Assumptions C12_mbr_top.
+Theorem C12_mbr_bottom : forall aeps cells (t : thr) levels, accepted aeps cells ->
+  t = TNegInf \/ t = TNan \/ (exists q, t = TFin q /\ q < 0) ->
+  must_be_refined_x t cells = false /\ refine_cells_x t levels cells = Some cells.
+Proof. exact mbr_x_bottom. Qed.
+Print Assumptions C12_mbr_bottom.
+Example C12_ex_empty_inf : accepted (qc 1 1024) ex_empty_cells /\
+  must_be_refined_x TPosInf ex_empty_cells = false /\
+  refine_x (qc 1 1024) TPosInf 16 ex_empty_cells = Some ex_empty_cells /\
+  refine_loop 3 (qc 1 1024) TPosInf 1 ex_empty_cells = LoopDone ex_empty_cells /\
+  must_be_refined_x TPosInf ex_cells = true /\ must_be_refined_x TNegInf ex_cells = false /\
+  must_be_refined_x TNan ex_cells = false /\
+  match refine_x (qc 1 1024) TPosInf 2 ex_cells with Some new => List.length new = 5%nat | None => False end.
+Proof. exact ex_empty_inf. Qed.
+
+(* finite thresholds: the extended functions are the functions of Alloc.v (used by the models of the callers) *)
+Theorem C12_fin_splittable : forall (t : Qc) c, splittable_x (TFin t) c = splittable t c.
+Proof. exact splittable_x_fin. Qed.
+Print Assumptions C12_fin_splittable.
+Theorem C12_fin_must_be_refined : forall (t : Qc) cells, must_be_refined_x (TFin t) cells = must_be_refined t cells.
+Proof. exact must_be_refined_x_fin. Qed.
+Print Assumptions C12_fin_must_be_refined.
+Theorem C12_fin_refine : forall aeps (t : Qc) levels cells, refine_x aeps (TFin t) levels cells = refine aeps t levels cells.
+Proof. exact refine_x_fin. Qed.
+Print Assumptions C12_fin_refine.
 
 (* one halving step of split_alloc cuts the longer side in two equal halves *)
 Theorem C12_split_halves : forall r, wf r ->
@@ -99,36 +164,36 @@ Print Assumptions C12_reach_valid.
 Theorem C12_reach_mbr_iff_changes : forall eps aeps q cells ops k t levels,
   0 <= aeps -> accepted aeps cells -> Forall hop_admissible ops -> (0 < levels)%nat ->
   let s := fst (run_hist eps aeps q ops (hinit cells)) in
-  exists new, snd (hstep eps aeps q (HApply k (OpRefine t levels)) s) = ONew (Some new) /\
+  exists new, snd (hstep eps aeps q (HApply k (XRefine t levels)) s) = ONew (Some new) /\
     (snd (hstep eps aeps q (HMbr k t) s) = OBool true <-> new <> hget s k).
 Proof. exact reach_mbr_iff_changes. Qed.
 Print Assumptions C12_reach_mbr_iff_changes.
 
 Theorem C12_hist_mbr_iff_changes : forall eps aeps q s k t levels, 0 <= aeps -> hvalid aeps s -> (0 < levels)%nat ->
-  exists new, snd (hstep eps aeps q (HApply k (OpRefine t levels)) s) = ONew (Some new) /\
+  exists new, snd (hstep eps aeps q (HApply k (XRefine t levels)) s) = ONew (Some new) /\
     (snd (hstep eps aeps q (HMbr k t) s) = OBool true <-> new <> hget s k).
 Proof. exact hist_mbr_iff_changes. Qed.
 Print Assumptions C12_hist_mbr_iff_changes.
 
 (* the cells refine(t, levels) cuts are decided by the flags and maps of that moment *)
 Theorem C12_hist_refine_exact : forall eps aeps q s k t levels, 0 <= aeps -> hvalid aeps s -> (0 < levels)%nat ->
-  exists new parts, snd (hstep eps aeps q (HApply k (OpRefine t levels)) s) = ONew (Some new) /\
-    new = List.concat parts /\ Forall2 (refine_cell_spec t levels) (hget s k) parts.
+  exists new parts, snd (hstep eps aeps q (HApply k (XRefine t levels)) s) = ONew (Some new) /\
+    new = List.concat parts /\ Forall2 (refine_cell_spec_x t levels) (hget s k) parts.
 Proof. exact hist_refine_exact. Qed.
 Print Assumptions C12_hist_refine_exact.
 
 (* what rect.fixed = b changes about the decision: a flagged cell is never selected; an unflagged one is selected
    iff it is occupied and no ratio exceeds t *)
-Theorem C12_splittable_set_fixed_true : forall t c, splittable t (cset_fixed true c) = false.
+Theorem C12_splittable_set_fixed_true : forall (t : thr) c, splittable_x t (cset_fixed true c) = false.
 Proof. exact splittable_set_fixed_true. Qed.
 Print Assumptions C12_splittable_set_fixed_true.
-Theorem C12_splittable_set_fixed_false : forall t c,
-  splittable t (cset_fixed false c) = negb (is_empty (calloc c)) && forallb (fun p => Qcleb (snd p) t) (calloc c).
+Theorem C12_splittable_set_fixed_false : forall (t : thr) c,
+  splittable_x t (cset_fixed false c) = negb (is_empty (calloc c)) && forallb (fun p => le_thr (snd p) t) (calloc c).
 Proof. exact splittable_set_fixed_false. Qed.
 Print Assumptions C12_splittable_set_fixed_false.
 
 Theorem C12_hist_uniform_all_at_max : forall eps aeps q s k, 0 <= aeps -> hvalid aeps s ->
-  exists new, snd (hstep eps aeps q (HApply k OpUniform) s) = ONew (Some new) /\
+  exists new, snd (hstep eps aeps q (HApply k XUniform) s) = ONew (Some new) /\
     Forall (fun p => fixed (crect p) = false -> cdepth p = max_depth (hget s k)) new.
 Proof. exact hist_uniform_all_at_max. Qed.
 Print Assumptions C12_hist_uniform_all_at_max.
@@ -137,7 +202,7 @@ Theorem C12_hist_griddify_aligned : forall eps aeps q s k, 0 <= aeps -> hvalid a
   let cells := hget s k in
   let xc := fst (gather_boundaries eps (map crect cells)) in
   let yc := snd (gather_boundaries eps (map crect cells)) in
-  exists new, snd (hstep eps aeps q (HApply k OpGriddify) s) = ONew (Some new) /\
+  exists new, snd (hstep eps aeps q (HApply k XGriddify) s) = ONew (Some new) /\
     Forall (fun f => fixed (crect f) = false ->
       (forall x, In x (interior xc) -> xmin (crect f) < x -> x < xmax (crect f) -> refused_x q x cells f) /\
       (forall y, In y (interior yc) -> ymin (crect f) < y -> y < ymax (crect f) -> refused_y q y cells f)) new.
